@@ -24,6 +24,7 @@ structure ThreadInfo where
   wokenKind : String := ""
   hitAt : Option Int := none         -- clock when its lookup was answered from cache
   inHfp : Bool := false              -- its lookup fell into the hit-for-pass period of its entry
+  probe : Bool := false              -- its lookup was the first after the hit-for-pass period of its entry had ended
 
 structure SchedSt where
   active : Bool := false
@@ -176,7 +177,10 @@ def judgeSched (st0 : SchedSt) (fields : List String) : SchedSt × String :=
             | .hitServe _ _ => { ti with hitAt := some st.s.now }
             | _ => ti
           let inHfp : Bool := match st.hfpUntil.lookup ti.eidx with | some u => decide (st.s.now ≤ u) | none => false
-          let ti := { ti with inHfp := inHfp }
+          -- the marker of its entry has lapsed and nobody is probing the key yet: this request is the single probe
+          let lapsed : Bool := match st.hfpUntil.lookup ti.eidx with | some u => decide (st.s.now > u) | none => false
+          let otherProbe : Bool := st.threads.any fun (u, ui) => u != t && ui.eidx == ti.eidx && ui.probe && ui.upEnd.isNone
+          let ti := { ti with inHfp := inHfp, probe := lapsed && pos == "upstream" && !otherProbe }
           let st' := ({ st with s := s1, ticksSinceHit := (t, 0) :: st.ticksSinceHit.filter (·.1 ≠ t) }).setThread t ti
           -- monitor (C04), on the implementation's observations only: a lookup answered from the cache must be
           -- justified by a cacheable fetch for this key still within its lifetime, or by a store record that
@@ -199,6 +203,9 @@ def judgeSched (st0 : SchedSt) (fields : List String) : SchedSt × String :=
           if consulted != mconsult then ({ st' with active := false }, s!"DIFF sched get store consulted impl={consulted} model={mconsult}{trip}")
           else cmp st' t pos s!"get-{posOfPc (s1.pc ⟨t⟩)}" trip
       | _, _ => (st, "BADLINE sched get")
+    | ["purgeack", _k, early, code] =>
+      -- monitor (C18, C08): the admin endpoint answers a purge only after the store delete has been carried out
+      (st, "ok purgeack 1" ++ (if early = "1" ∨ code ≠ "204" then " TRIP purge_acked_before_done" else ""))
     | ["park", t, "=>", pos] =>
       match t.toNat? with
       | some t =>
@@ -263,6 +270,8 @@ def judgeSched (st0 : SchedSt) (fields : List String) : SchedSt × String :=
           let trip := if isFetcher ∧ overlaps then " TRIP overlap" else ""
           -- monitor (C07): a request whose lookup fell into the hit-for-pass period is a pass: it does not complete the entry
           let trip := trip ++ (if ti.inHfp && decide isFetcher then " TRIP hfp_period_wrong" else "")
+          -- … and the first request after the period ended probes the key: it is the fetcher, not one more pass
+          let trip := trip ++ (if ti.probe && !(decide isFetcher) then " TRIP hfp_period_wrong" else "")
           let ti := { ti with upEnd := some st.line, fetcher := isFetcher, lastRid := some rid }
           let st' := ({ st with s := s1, fetches := ⟨rid, ti.key, ttl, kind = "cacheable".toList, none⟩ :: st.fetches }).setThread t ti
           match parseResult pos with
